@@ -299,7 +299,7 @@ Definition comp_run (fl : flags) (k : comp) (args dphi : nat) : comp * nat * nat
   let stored := match args with 0 => k_args k | S _ => if f_compile_args_local fl then k_args k else args end in
   (mkComp (k_gp0 k) gp (k_args0 k) stored, eff, gp).
 
-Definition new_pulses (n eff : nat) : list pulse := map (fun i => mkPulse (1 + i + 100 * eff) 0 0) (seq 0 n).
+Definition new_pulses (n eff : nat) : list pulse := map (fun i => mkPulse (1 + i + 16 * eff) 0 0) (seq 0 n).
 
 Definition pulses_digest (ps : list pulse) : nat := fold_right (fun p a => pl_fn p + 7 * pl_noise p + 3 * a) 0 ps.
 Definition pview (p : proc) : list (nat * nat) * nat * nat := (map (fun q => (pl_fn q, pl_noise q)) (p_pulses p), p_gp p, p_nnoise p).
@@ -402,10 +402,14 @@ Definition exec (fl : flags) (w : world) (c : call) : option (world * val) :=
           let '(k', eff, gp) := comp_run fl kin 0 dphi in
           let ps := (if f_set_coeffs_clears fl then [] else p_pulses pr) ++ new_pulses (length (objof h2 (fld h2 qc2 0))) eff in
           let pgp := if sets then (if f_load_sets_gp fl then gp else p_gp pr + gp) else p_gp pr in
+          (* what a fresh processor and a fresh compiler would hold after the same load *)
+          let '(_, eff0, gp0) := comp_run fl (mkComp (k_gp0 kin) (k_gp0 kin) (k_args0 kin) (k_args0 kin)) 0 dphi in
+          let ps0 := new_pulses (length (objof h2 (fld h2 qc2 0))) eff0 in
+          let pgp0 := if sets then gp0 else 0 in
           let (h4, r) := alloc h3 [Tok (pulses_digest ps); Tok pgp] in
           Some (mkWorld h4 (sims w)
                         (match ko with Some k => upd (comps w) k k' | None => comps w end)
-                        (upd (procs w) p (mkProc ps pgp (p_nnoise pr) (p_hast pr) ps pgp)), r)
+                        (upd (procs w) p (mkProc ps pgp (p_nnoise pr) (p_hast pr) ps0 pgp0)), r)
         end
       end
     end
@@ -426,10 +430,10 @@ Definition exec (fl : flags) (w : world) (c : call) : option (world * val) :=
     Some (mkWorld h (sims w) (comps w) (upd (procs w) p pr'), Tok d)
   | CRunAnalytic p =>
     let pr := nth p (procs w) dproc in
-    Some (w, Tok (pulses_digest (p_pulses pr) + 1000 * p_gp pr))
+    Some (w, Tok (pulses_digest (p_pulses pr) + 11 * p_gp pr))
   | CHeld p =>
     let pr := nth p (procs w) dproc in
-    Some (w, Tok (pulses_digest (p_pulses pr) + 1000 * p_gp pr + 1000000 * p_nnoise pr))
+    Some (w, Tok (pulses_digest (p_pulses pr) + 11 * p_gp pr + 13 * p_nnoise pr))
   | CRaise => Some (w, Tok 0)
   end.
 
